@@ -2,7 +2,7 @@ From Coq Require Import Extraction ExtrOcamlBasic ExtrOcamlString.
 From GW Require Import Base Xml.
 Extraction Language OCaml.
 Extraction "model_c15.ml"
-  doc_agrees doc_spec_ok doc_spec_main doc_spec_in doc_kf doc_kf_in input_wf bad_agrees
+  doc_agrees doc_agrees_mod doc_spec_ok doc_spec_main doc_spec_in doc_kf doc_kf_in input_wf bad_agrees
   marshal_in_agrees reread_in dav_ns
   inter_agrees inter_spec_ok seq_agrees seq_spec_ok run_product run1
   typed_agrees typed_spec_ok
